@@ -60,6 +60,9 @@ namespace pika::detail {
     {
         PIKA_ASSERT(lock.owns_lock());
 
+#if defined(PIKA_VERIF)
+        PIKA_VERIF_POINT(603, this, queue_.size(), 0);    // notify_one (internal lock held)
+#endif
         if (!queue_.empty())
         {
             auto ctx = queue_.front().ctx_;
@@ -92,6 +95,9 @@ namespace pika::detail {
     {
         PIKA_ASSERT(lock.owns_lock());
 
+#if defined(PIKA_VERIF)
+        PIKA_VERIF_POINT(704, this, queue_.size(), 0);    // notify_all (internal lock held)
+#endif
         // swap the list
         queue_type queue;
         queue.swap(queue_);
@@ -133,9 +139,13 @@ namespace pika::detail {
         {
             // suspend this thread
             ::pika::detail::unlock_guard<std::unique_lock<mutex_type>> ul(lock);
+#if defined(PIKA_VERIF)
+            PIKA_VERIF_POINT(705, this, 0, 0);    // wait: enqueued, internal lock released, before suspend
+#endif
             this_ctx.suspend();
 #if defined(PIKA_VERIF)
             PIKA_VERIF_POINT(806, this);
+            PIKA_VERIF_POINT(701, this, 0, 0);    // wait: suspend returned, before re-locking (no lock held)
 #endif
         }
 
@@ -158,6 +168,9 @@ namespace pika::detail {
         {
             // suspend this thread
             ::pika::detail::unlock_guard<std::unique_lock<mutex_type>> ul(lock);
+#if defined(PIKA_VERIF)
+            PIKA_VERIF_POINT(706, this, 0, 0);    // wait_until: enqueued, internal lock released, before sleep
+#endif
             this_ctx.sleep_until(abs_time.value());
 #if defined(PIKA_VERIF)
             PIKA_VERIF_POINT(807, this);
